@@ -96,6 +96,24 @@ bool h_named(const std::string &name, Case &c) {
     require_wf(c, t, "after the second dont_merge group with the same cpuset"); std::string x = export_xml(t, 0); CHECK(c, !x.empty(), "export", "export failed");
     hwloc_topology_destroy(t); return true;
   }
+  if (name == "F-C02-h") {   // Group inserted by cpuset among siblings that are ordered by complete_cpuset (offline CPUs)
+    std::string f = std::string(verif_repo()) + "/tests/hwloc/xml/16em64t-4s2c2t-offlines.xml"; c.desc("16em64t-4s2c2t-offlines.xml; insert dont_merge Group(cpuset {6})");
+    hwloc_topology_t t; hwloc_topology_init(&t); CHECK(c, hwloc_topology_set_xml(t, f.c_str()) == 0 && hwloc_topology_load(t) == 0, "named_setup", "cannot load %s", f.c_str());
+    hwloc_obj_t g = hwloc_topology_alloc_group_object(t); g->cpuset = hwloc_bitmap_alloc(); hwloc_bitmap_set(g->cpuset, 6); g->attr->group.dont_merge = 1;
+    hwloc_obj_t r = hwloc_topology_insert_group_object(t, g); CHECK(c, r && r->type == HWLOC_OBJ_GROUP, "named_setup", "group not inserted");
+    require_wf(c, t, "after inserting the Group"); hwloc_topology_destroy(t); return true;
+  }
+  if (name == "F-C13-d") {   // NO_DISTANCES left topology->grouping uninitialised: add_commit(GROUP) grouped depending on garbage, even with Groups filtered out
+    c.desc("flags NO_DISTANCES, Group filter KEEP_NONE, pack:4 pu:2 (heap pre-filled with 0x5a); add user distances over the 4 Packages with GROUP flags");
+    // fill the heap with non-zero bytes so that an uninitialised field does not read as 0 by luck
+    { std::vector<void *> blocks; for (int i = 0; i < 64; i++) { void *p = malloc(4096 + 64 * i); memset(p, 0x5a, 4096 + 64 * i); blocks.push_back(p); } for (void *p : blocks) free(p); }
+    hwloc_topology_t t; hwloc_topology_init(&t); hwloc_topology_set_flags(t, HWLOC_TOPOLOGY_FLAG_NO_DISTANCES); hwloc_topology_set_type_filter(t, HWLOC_OBJ_GROUP, HWLOC_TYPE_FILTER_KEEP_NONE); hwloc_topology_set_synthetic(t, "pack:4 pu:2"); CHECK(c, hwloc_topology_load(t) == 0, "named_setup", "load failed");
+    hwloc_obj_t objs[4]; for (int i = 0; i < 4; i++) objs[i] = hwloc_get_obj_by_type(t, HWLOC_OBJ_PACKAGE, i); hwloc_uint64_t v[16]; for (int i = 0; i < 4; i++) for (int j = 0; j < 4; j++) v[i * 4 + j] = i == j ? 10 : (i / 2 == j / 2) ? 20 : 40;
+    hwloc_distances_add_handle_t h = hwloc_distances_add_create(t, "user", HWLOC_DISTANCES_KIND_FROM_USER | HWLOC_DISTANCES_KIND_VALUE_LATENCY, 0); CHECK(c, h && hwloc_distances_add_values(t, h, 4, objs, v, 0) == 0, "named_setup", "cannot add distances");
+    int r = hwloc_distances_add_commit(t, h, HWLOC_DISTANCES_ADD_FLAG_GROUP | HWLOC_DISTANCES_ADD_FLAG_GROUP_INACCURATE); CHECK(c, r == 0, "named_setup", "commit failed");
+    CHECK(c, hwloc_get_nbobjs_by_type(t, HWLOC_OBJ_GROUP) == 0, "no_grouping", "%d Groups were created although NO_DISTANCES disables grouping (and Groups are filtered out)", hwloc_get_nbobjs_by_type(t, HWLOC_OBJ_GROUP));
+    require_wf(c, t, "after add_commit"); hwloc_topology_destroy(t); return true;
+  }
   if (name == "F-C02-e") {   // Group inserted above an object with equal cpuset that owns memory children: stale total_memory
     c.desc("synthetic pack:2 l2:2 [numa] core:1 pu:1; insert dont_merge Group with the cpuset of L2#0");
     hwloc_topology_t t = load_syn("pack:2 l2:2 [numa] core:1 pu:1"); hwloc_obj_t l2 = hwloc_get_obj_by_type(t, HWLOC_OBJ_L2CACHE, 0);
